@@ -119,10 +119,13 @@ def merge(results):
     return m
 
 
+OUT = os.environ.get('VERIF_OUT') or core.VERIF     # selftest redirects evidence/replays of mutant runs
+
+
 def write_replay(prop, tier, seed, rec, tree):
-    os.makedirs(os.path.join(core.VERIF, 'replays'), exist_ok=True)
+    os.makedirs(os.path.join(OUT, 'replays'), exist_ok=True)
     digest = hashlib.sha256(json.dumps(rec, sort_keys=True, default=repr).encode()).hexdigest()[:12]
-    path = os.path.join(core.VERIF, 'replays', '%s-%s.json' % (prop, digest))
+    path = os.path.join(OUT, 'replays', '%s-%s.json' % (prop, digest))
     with open(path, 'w') as f:
         json.dump({'property': prop, 'tier': tier, 'seed': seed, 'tree': tree,
                    'kind': rec['kind'], 'case': rec['case'], 'detail': rec['detail']}, f, indent=1, default=repr)
@@ -206,8 +209,8 @@ def check(prop, tier):
         'wall_s': round(wall, 2),
         'violations': n_viol,
     }
-    os.makedirs(os.path.join(core.VERIF, 'evidence'), exist_ok=True)
-    ev_path = os.path.join(core.VERIF, 'evidence', '%s.json' % prop)
+    os.makedirs(os.path.join(OUT, 'evidence'), exist_ok=True)
+    ev_path = os.path.join(OUT, 'evidence', '%s.json' % prop)
     with open(ev_path + '.tmp', 'w') as f:
         json.dump(evidence, f, indent=1, default=repr, ensure_ascii=False)
     os.replace(ev_path + '.tmp', ev_path)
